@@ -89,3 +89,135 @@ func resultType(pred func(types.Type) bool) Sel {
 
 // whole holds lazily computed whole-program facts.
 type whole struct{}
+
+// sendOn selects channel sends (bare Send instructions and Select
+// instructions with a send arm) whose channel satisfies pred.
+func sendOn(pred func(ssa.Value) bool) Sel {
+	return func(in ssa.Instruction) bool {
+		switch x := in.(type) {
+		case *ssa.Send:
+			return pred(x.Chan)
+		case *ssa.Select:
+			for _, st := range x.States {
+				if st.Dir == types.SendOnly && pred(st.Chan) {
+					return true
+				}
+			}
+		}
+		return false
+	}
+}
+
+// mapDelete selects builtin delete calls on a map satisfying pred.
+func mapDelete(pred func(ssa.Value) bool) Sel {
+	return func(in ssa.Instruction) bool {
+		if !isBuiltin("delete")(in) {
+			return false
+		}
+		return pred(ir.CallOf(in).Args[0])
+	}
+}
+
+// mapUpdate selects map inserts on a map satisfying pred.
+func mapUpdate(pred func(ssa.Value) bool) Sel {
+	return func(in ssa.Instruction) bool {
+		mu, ok := in.(*ssa.MapUpdate)
+		return ok && pred(mu.Map)
+	}
+}
+
+// isParam builds a predicate "value is (derived from) parameter #i of fn".
+func isParam(fn *ssa.Function, i int) func(ssa.Value) bool {
+	return func(v ssa.Value) bool {
+		return ir.DerivesFrom(v, func(x ssa.Value) bool { return i < len(fn.Params) && x == ssa.Value(fn.Params[i]) })
+	}
+}
+
+// constIntIs builds a predicate "integer constant k".
+func constIntIs(k int64) func(ssa.Value) bool {
+	return func(v ssa.Value) bool {
+		x, ok := ir.ConstInt(v)
+		return ok && x == k
+	}
+}
+
+// lookupsOn selects comma-ok map lookups on maps satisfying pred.
+func lookupsOn(pred func(ssa.Value) bool) Sel {
+	return func(in ssa.Instruction) bool {
+		l, ok := in.(*ssa.Lookup)
+		return ok && l.CommaOk && pred(l.X)
+	}
+}
+
+// progressReturns classifies the returns of a response handler returning
+// query.Progress: a return is "positive" unless both Finished and Progressed
+// are provably the constant false.
+func progressReturns(fn *ssa.Function, positiveOnly bool) []ssa.Instruction {
+	var out []ssa.Instruction
+	for _, in := range find(fn, isExit) {
+		r := in.(*ssa.Return)
+		if len(r.Results) != 1 {
+			continue
+		}
+		if progressIsNegative(r.Results[0]) != positiveOnly {
+			out = append(out, in)
+		}
+	}
+	return out
+}
+
+func progressIsNegative(v ssa.Value) bool {
+	ld, ok := v.(*ssa.UnOp)
+	if !ok {
+		return false
+	}
+	switch a := ld.X.(type) {
+	case *ssa.Alloc:
+		// composite literal: every stored field must be constant false
+		for _, r := range ir.Refs(a) {
+			switch x := r.(type) {
+			case *ssa.FieldAddr:
+				for _, rr := range ir.Refs(x) {
+					if st, ok := rr.(*ssa.Store); ok {
+						if b, isC := ir.ConstBool(st.Val); !isC || b {
+							return false
+						}
+					}
+				}
+			case *ssa.Store:
+				return false
+			}
+		}
+		return true
+	case *ssa.Global:
+		return a.Name() == "noProgress" && globalIsZeroProgress(a)
+	}
+	return false
+}
+
+// globalIsZeroProgress: the package initializer stores nothing but constant
+// false into the global (or nothing at all).
+func globalIsZeroProgress(g *ssa.Global) bool {
+	init := g.Pkg.Func("init")
+	if init == nil {
+		return false
+	}
+	okv := true
+	ir.Instrs(init, func(in ssa.Instruction) {
+		st, isSt := in.(*ssa.Store)
+		if !isSt {
+			return
+		}
+		root := st.Addr
+		if fa, isFa := root.(*ssa.FieldAddr); isFa {
+			root = fa.X
+		}
+		if root != ssa.Value(g) {
+			return
+		}
+		if b, isC := ir.ConstBool(st.Val); !isC || b {
+			okv = false
+		}
+	})
+	return okv
+}
